@@ -29,7 +29,7 @@ type PipeCase struct {
 	GoMaxProcs int    `json:"gomaxprocs"`
 	Plan       string `json:"speed_plan"`
 	RealSnap   bool   `json:"real_snap"`
-	StallMs    int    `json:"stall_ms,omitempty"` // the source pauses this long once (a long-running table)
+	StallMs    int    `json:"stall_ms,omitempty"`  // the source pauses this long once (a long-running table)
 	BigMulti   bool   `json:"big_multi,omitempty"` // multipolygons with up to several hundred parts
 }
 
